@@ -68,6 +68,8 @@ type Ctx struct {
 	lazyArr  map[string]func(idx string) string
 	lazyDone map[string]bool
 	sliceMu   sync.Mutex
+	privUsed  bool
+	reachInfo map[string]string
 	noBind    int // >0 while translating the body of a quantifier (terms may mention bound variables)
 	inlinedBlocks int
 	aSyms     [][]string
@@ -82,7 +84,7 @@ type Ctx struct {
 
 func newCtx(eng *Engine, name string) *Ctx {
 	c := &Ctx{eng: eng, declSet: map[string]string{}, defs: map[string]string{}, memSorts: map[string]string{},
-		notes: map[string]int{}, strs: map[string]string{}, funcName: name, usedContracts: map[*Contract]bool{}, lazyArr: map[string]func(string) string{}, lazyDone: map[string]bool{}, mulMemo: map[string]string{}, globalsSeen: map[string]globalCell{}}
+		notes: map[string]int{}, strs: map[string]string{}, funcName: name, usedContracts: map[*Contract]bool{}, lazyArr: map[string]func(string) string{}, lazyDone: map[string]bool{}, mulMemo: map[string]string{}, globalsSeen: map[string]globalCell{}, reachInfo: map[string]string{}}
 	return c
 }
 
